@@ -160,8 +160,12 @@ def extra_checks(runner, ev):
         # precondition of the assumed dependency contract "the delegate performs ONE attempt": no library-side retry option is passed
         lib_retry = [kw.arg for node in ast.walk(fn) if isinstance(node, ast.Call) and ast.unparse(node.func) == "self.guarded" for kw in node.keywords
                      if kw.arg in ("max_retries", "retry_on_timeout", "retry_on_status", "initial_backoff", "max_backoff")]
-        ok = raw_calls == 0 and not lib_retry and (guarded_calls == 1 or (guarded_calls == 0 and via == 1))
-        ops.append({"op": fn.name, "guarded_calls": guarded_calls, "raw_client_calls": raw_calls, "delegates_to_other_op": via})
+        # ... and "the delegate performs the request WHILE guarded runs it": it is a bound method of the raw client or the eager bulk helper, never a
+        # generator function (streaming_bulk / parallel_bulk / scan send their requests only when the result is consumed -- outside the retry loop)
+        delegates = [ast.unparse(node.args[0]) for node in ast.walk(fn) if isinstance(node, ast.Call) and ast.unparse(node.func) == "self.guarded" and node.args]
+        lazy = [d_ for d_ in delegates if not (d_.startswith("self._client.") or d_ == "elasticsearch.helpers.bulk")]
+        ok = raw_calls == 0 and not lib_retry and not lazy and (guarded_calls == 1 or (guarded_calls == 0 and via == 1))
+        ops.append({"op": fn.name, "guarded_calls": guarded_calls, "raw_client_calls": raw_calls, "delegates_to_other_op": via, "delegate": delegates[:1], "not_an_eager_client_call": lazy})
         if not ok:
             bad.append(fn.name)
     cov = ev["coverage"]
